@@ -9,7 +9,10 @@ import (
 	"encoding/json"
 	"errors"
 	"fmt"
+	"io"
+	"io/fs"
 	"strings"
+	"syscall"
 
 	"github.com/hedzr/logg/slog"
 
@@ -28,7 +31,12 @@ type c13attempt struct {
 	Whole  bool // payload complete (ends with newline)
 }
 
+type c13err struct{ w string }
+
+func (e c13err) Error() string { return "custom failure on " + e.w }
+
 type c13world struct {
+	nfail    int
 	attempts []c13attempt
 	call     int
 	faults   bool
@@ -57,7 +65,17 @@ func (f *faultW) Write(p []byte) (int, error) {
 	if w.faults && sched.Choose("fault:"+f.name, 2) == 1 {
 		a.Failed = true
 		w.attempts = append(w.attempts, a)
-		return 0, errors.New("injected write failure on " + f.name)
+		// destinations fail with errors of different concrete types, some after a short write
+		w.nfail++
+		switch w.nfail % 4 {
+		case 0:
+			return 0, errors.New("injected write failure on " + f.name)
+		case 1:
+			return len(p) / 2, &fs.PathError{Op: "write", Path: f.name, Err: syscall.ENOSPC}
+		case 2:
+			return 0, io.ErrShortWrite
+		}
+		return len(p) - 1, c13err{f.name}
 	}
 	w.attempts = append(w.attempts, a)
 	return len(p), nil
